@@ -12,6 +12,7 @@ evaluator happens to take the timestamp from in the steady state); the consumer 
 the quantifier keeps every backlog within the receiver capacity, so nothing is dropped.
 -/
 import Frequenz.Lemmas.Evaluator3
+import Frequenz.Lemmas.EvaluatorFb
 import Frequenz.Extracted.Evaluator
 
 open Evaluator
@@ -166,3 +167,71 @@ example : AdmFrom3 true C06_w_phase C06_w_phase C06_w_phase C06_w_t0 C06_w_src S
 is stamped tick 0 and mixes the values of ticks 0, 1 and 2 — and the shift persists. -/
 example : (run3 false C06_w_phase C06_w_phase C06_w_phase C06_witness).out =
       [⟨0, some 100, some 201, some 302⟩, ⟨1, some 101, some 202, some 303⟩] := by decide
+
+/-! ### Engine whose terms may have a fallback (`push_metric(..., fallback=…)`): holds in full
+
+Model: `Evaluator.stepF` = the evaluator composed with the `MetricFetcher` model of C19 (`Model/Fallback.lean`), one
+event per completed `fetch_next()` (so every real-time placement of a fallback's lazy `start()` relative to the
+emissions of its source is a schedule).  `t0 i` / `g0 i`: first tick of the primary stream / of the fallback source of
+term `i`, both gap-free; `hasFb i`: the term was built with a fallback. -/
+
+/-- The model's `MetricFetcher` returns the primary sample when it is OLDER than the latest fallback sample
+(`Fallback.withLatest`, first branch) only if the source does: regenerated from
+`MetricFetcher._synchronize_and_fetch_fallback` on every run.  Without that guard the catch-up loop (which only
+handles a NEWER primary) is skipped and a fallback sample stamped later than the primary sample is used; this theorem
+then does not build and the check searches (and finds) the failing input (corpus/C06/fallback_first_sample_later_than_primary). -/
+theorem C06_fallback_guard : Extracted.Evaluator.fallbackSyncGuardsAhead = true := by decide
+
+/-- Full statement for an engine whose terms may have fallbacks: for every number of terms, every subset of terms
+with a fallback, every first tick of every primary stream and fallback source, and every schedule (interleaving of
+primary deliveries, fallback-source emissions before / with / after the primary sample of the same tick, and
+completions of the individual `fetch_next()` calls — hence every moment at which a fallback is lazily started, every
+backlog, every attach point, every steady-state timestamp choice): the `r`-th emitted sample is stamped
+`T = max_i t0 i + r` (none skipped, repeated or reordered) and its value is the formula on one sample `u` per term,
+every one stamped `T`: the primary sample `p` stamped `T` itself whenever that is valid, and otherwise either `p`
+(invalid: the fallback is not there yet) or a sample stamped `T` that the term's started fallback delivered. -/
+def C06_fallback_statement : Prop :=
+  ∀ (n : Nat) (f : List (Option Rat) → Option Rat) (hasFb : Nat → Bool) (t0 g0 : Nat → Int) (es : List EvF),
+    0 < n → AdmFromF n f hasFb t0 g0 FSt.init es →
+    ∀ (r : Nat) (o : Sample), (runF n f hasFb es).out[r]? = some o →
+      o.ts = maxStart n t0 + r ∧
+      ∃ us : List Fallback.Sample, us.length = n ∧ o.val = f (us.map (·.val)) ∧
+        ∀ i, i < n → ∃ u p, us[i]? = some u ∧ u.ts = o.ts ∧
+          p ∈ ((runF n f hasFb es).terms i).pAll ∧ p.ts = o.ts ∧
+          (p.val.isSome = true → u = p) ∧
+          (u = p ∨ (hasFb i = true ∧ p.val = none ∧ u ∈ ((runF n f hasFb es).terms i).acc))
+
+theorem C06_fallback_single_timestamp : C06_fallback_statement := by
+  intro n f hasFb t0 g0 es hn ha r o ho
+  obtain ⟨hts, us, hl, hv, hu⟩ := (finv_run hn es ha).outs r o ho
+  refine ⟨hts, us, hl, hv, ?_⟩
+  intro i hi
+  obtain ⟨u, h1, h2, p, h3, h4, h5, h6⟩ := hu i hi
+  exact ⟨u, p, h1, h2, h3, by rw [h4, h2], h5, h6⟩
+
+/-- Consecutive outputs of an engine with fallback terms are exactly one input step apart. -/
+theorem C06_fallback_step (n : Nat) (f : List (Option Rat) → Option Rat) (hasFb : Nat → Bool) (t0 g0 : Nat → Int)
+    (es : List EvF) (hn : 0 < n) (ha : AdmFromF n f hasFb t0 g0 FSt.init es) (r : Nat) (o o' : Sample)
+    (h1 : (runF n f hasFb es).out[r]? = some o) (h2 : (runF n f hasFb es).out[r + 1]? = some o') :
+    o'.ts = o.ts + 1 := by
+  have e1 := (C06_fallback_single_timestamp n f hasFb t0 g0 es hn ha r o h1).1
+  have e2 := (C06_fallback_single_timestamp n f hasFb t0 g0 es hn ha (r + 1) o' h2).1
+  push_cast at e2
+  omega
+
+/-- `#a + #b` (missing counts as zero), `#a` with a fallback: the primaries deliver ticks 0..3 as a backlog (`#a`
+valid only at tick 0), then the engine works through it; the fallback started at tick 1 first sees the sample of
+tick 3 — LATER than the primary sample being processed (= corpus/C06/fallback_first_sample_later_than_primary). -/
+def C06_fb_demo : List EvF :=
+  [.dP 0 ⟨0, some 1⟩, .dP 1 ⟨0, some 65536⟩, .dP 0 ⟨1, none⟩, .dP 1 ⟨1, some 131072⟩, .dP 0 ⟨2, none⟩,
+   .dP 1 ⟨2, some 196608⟩, .dP 0 ⟨3, none⟩, .dP 1 ⟨3, some 262144⟩,
+   .fetch 0 0, .fetch 1 0, .fetch 0 1, .fetch 1 1, .fetch 1 0, .dF 0 ⟨3, some 1024⟩, .fetch 0 0, .fetch 0 0, .fetch 1 0]
+
+def C06_fb_demo_f : List (Option Rat) → Option Rat := fun l => some ((l.getD 0 none).getD 0 + (l.getD 1 none).getD 0)
+def C06_fb_demo_has : Nat → Bool := fun i => i == 0
+
+/-- non-vacuity: ticks 1 and 2 use the invalid primary sample (counted as zero), never the fallback sample of
+tick 3; tick 3 uses it -/
+example : AdmFromF 2 C06_fb_demo_f C06_fb_demo_has (fun _ => 0) (fun _ => 3) FSt.init C06_fb_demo ∧
+    (runF 2 C06_fb_demo_f C06_fb_demo_has C06_fb_demo).out =
+      [⟨0, some 65537⟩, ⟨1, some 131072⟩, ⟨2, some 196608⟩, ⟨3, some 263168⟩] := by decide +kernel
